@@ -455,7 +455,9 @@ func (h *SimH) do(q *Req, c flamego.Context, rw http.ResponseWriter, r *http.Req
 			q.Note("sees=" + r.Method + " " + r.URL.Path + "?" + r.URL.RawQuery)
 		}
 	case OpSeeBody:
-		if c != nil {
+		if c != nil && q.Staged {
+			q.Note("body:not-read(staged)")
+		} else if c != nil {
 			b, err := c.Request().Body().String()
 			if err != nil {
 				q.Note("body:err")
